@@ -34,8 +34,9 @@ type kv struct {
 }
 
 type tester struct {
-	rep *vk.Report
-	r   *rand.Rand
+	rep       *vk.Report
+	r         *rand.Rand
+	synthetic bool // this history uses made-up record offsets (no records behind them)
 }
 
 // slug makes a stable class suffix from a panic message
@@ -398,7 +399,9 @@ func (t *tester) verify(ident string, bt *btree.T, want []kv, pool []string, spl
 		}
 	}
 	// QuickCheck and Stats
-	if p, _ := vk.Catch(func() { bt.QuickCheck() }); p != nil {
+	if t.synthetic {
+		rep.Count("quickcheck_skipped_synthetic_offsets", 1)
+	} else if p, _ := vk.Catch(func() { bt.QuickCheck() }); p != nil {
 		rep.Violate("C10/quickcheck-fails", ident, fmt.Sprint(p))
 		ok = false
 	}
@@ -518,6 +521,32 @@ func (t *tester) one(ci int) {
 	fmt.Fprintf(h, "%d %d %d|", split, shape, n0)
 	m := &model{m: map[string]uint64{}}
 	newOff := func() uint64 { return newRecord(st) }
+	// a third of the histories use made-up record offsets over the whole 40 bit range the nodes can store (the real
+	// ones above are small because the test store is small); QuickCheck, which reads the records, is skipped there
+	t.synthetic = ci%3 == 2
+	if t.synthetic {
+		usedOffs := map[uint64]bool{}
+		newOff = func() uint64 {
+			for {
+				var o uint64
+				switch r.IntN(4) {
+				case 0:
+					o = 1 + r.Uint64N(1<<32-1)
+				case 1:
+					o = 1<<32 - 3 + r.Uint64N(6) // around the 32 bit boundary
+				default:
+					o = 1<<32 + r.Uint64N(1<<40-1<<32)
+				}
+				if !usedOffs[o] {
+					usedOffs[o] = true
+					if o >= 1<<32 {
+						rep.Count("synthetic_offsets_above_32_bits", 1)
+					}
+					return o
+				}
+			}
+		}
+	}
 	// initial tree from the Builder: a random subset of the pool, in order
 	var bt *btree.T
 	{
